@@ -48,7 +48,7 @@ fn ast_patterns(max: usize) -> Vec<String> {
         let mut cur: Vec<(String, bool)> = vec![];
         let wrap = |e: &(String, bool)| if e.1 { e.0.clone() } else { format!("(?:{})", e.0) };
         for e in &by_size[n - 1] {
-            for op in ["?", "*", "+", "{0,2}"] {
+            for op in ["?", "*", "+", "{0,2}", "{12}"] {
                 cur.push((format!("{}{}", wrap(e), op), false));
             }
             cur.push((format!("({})", e.0), true));
@@ -95,6 +95,16 @@ fn inputs(max: usize) -> Vec<Vec<u8>> {
         out.extend(next.iter().cloned());
         cur = next;
     }
+    // long runs of one byte, for counted repetitions such as `a{12}` (the literal extractor treats large
+    // counts specially)
+    for x in [b'a', b'b'] { for pre in ["", "a", "b", " "] { for suf in ["", "a", "b", " "] {
+        let mut v = pre.as_bytes().to_vec();
+        v.extend(std::iter::repeat(x).take(12));
+        v.extend_from_slice(suf.as_bytes());
+        out.push(v);
+    }}}
+    out.sort();
+    out.dedup();
     out
 }
 
